@@ -855,6 +855,14 @@ def com_pos(m: Model, d: Data):
   )
 
 
+@wp.func
+def _normalize_or_x(v: wp.vec3) -> wp.vec3:
+  norm = wp.length(v)
+  if norm < MJ_MINVAL:
+    return wp.vec3(1.0, 0.0, 0.0)
+  return v / norm
+
+
 @wp.kernel
 def _cam_local_to_global(
   # Model:
@@ -903,10 +911,11 @@ def _cam_local_to_global(
     if cam_mode[camid] == CamLightType.TARGETBODYCOM:
       pos = subtree_com_in[worldid, cam_targetbodyid[camid]]
     # zaxis = -desired camera direction, in global frame
-    mat_3 = wp.normalize(cam_xpos_out[worldid, camid] - pos)
+    # (a zero vector normalizes to (1,0,0) as in mju_normalize3: camera on its target, or looking along z)
+    mat_3 = _normalize_or_x(cam_xpos_out[worldid, camid] - pos)
     # xaxis: orthogonal to zaxis and to (0,0,1)
-    mat_1 = wp.normalize(wp.cross(wp.vec3(0.0, 0.0, 1.0), mat_3))
-    mat_2 = wp.normalize(wp.cross(mat_3, mat_1))
+    mat_1 = _normalize_or_x(wp.cross(wp.vec3(0.0, 0.0, 1.0), mat_3))
+    mat_2 = _normalize_or_x(wp.cross(mat_3, mat_1))
     # fmt: off
     cam_xmat_out[worldid, camid] = wp.mat33(
       mat_1[0], mat_2[0], mat_3[0],
